@@ -35,6 +35,7 @@ def run(ctx, prog, facts, tier):
                                                  'BOTTOM_ROW_MASK'], rule='C01.1')
     n = rules_geom.check_helper_footprints(ctx, prog, I, rule='C01.2')
     ctx.floor('bitboard helper functions', n, 6)
+    rules_c01.check_support_argument(ctx, prog)
     rules_c01.check_strength_tables(ctx, prog, I)
     rules_c01.check_strictness(ctx, prog, I)
     rules_c01.check_pull_types(ctx, prog, I)
